@@ -21,23 +21,26 @@ fn carrier_range(c: &str) -> (i128, i128) {
     }
 }
 
-/// anchor for offsets -2..2 (values) and -1..1 (bounds, which must be i32)
+/// anchor for offsets -2..2 (values) and -1..1 (bounds, which must be i32):
+/// 0 mid, 1 hi (max-1), 2 lo (min+1), 3 top (max), 4 bottom (min); max/min of the carrier clipped to i32
 fn anchor(c: &str, k: usize) -> i128 {
     let (cmin, cmax) = carrier_range(c);
-    let hi = cmax.min(i128::from(i32::MAX)) - 2;
-    let lo = cmin.max(i128::from(i32::MIN)) + 2;
+    let top = cmax.min(i128::from(i32::MAX));
+    let bottom = cmin.max(i128::from(i32::MIN));
     match k {
         0 => if cmin < 0 { 0 } else { 2 },
-        1 => hi,
-        _ => lo,
+        1 => top - 1,
+        2 => bottom + 1,
+        3 => top,
+        _ => bottom,
     }
 }
 
 fn concrete(c: &str, k: usize, v: i64) -> i128 {
     let (cmin, cmax) = carrier_range(c);
     match v {
-        -100 => [i128::from(i32::MIN) - 1, cmin.max(i128::from(i64::MIN)), i128::from(i32::MIN) - 1000][k],
-        100 => [i128::from(i32::MAX) + 1, cmax, i128::from(i32::MAX) + 1000][k],
+        -100 => [i128::from(i32::MIN) - 1, cmin.max(i128::from(i64::MIN)), i128::from(i32::MIN) - 1000, i128::from(i32::MIN) - 1, cmin.max(i128::from(i64::MIN))][k],
+        100 => [i128::from(i32::MAX) + 1, cmax, i128::from(i32::MAX) + 1000, i128::from(i32::MAX) + 1, cmax][k],
         o => anchor(c, k) + i128::from(o),
     }
 }
@@ -46,7 +49,7 @@ fn restr(c: &str, k: usize, r: &Value, enum_has: Option<&str>) -> Option<Rc<Rest
     if !r["present"].as_bool().unwrap_or(false) {
         return None;
     }
-    let b = |name: &str| set1(&r[name]).map(|o| i32::try_from(anchor(c, k) + i128::from(o)).expect("bound fits i32"));
+    let b = |name: &str| set1(&r[name]).map(|o| i32::try_from(anchor(c, k) + i128::from(o)).unwrap_or_else(|_| std::panic::panic_any(Skip)));
     let n = |name: &str| set1(&r[name]).map(|o| usize::try_from(o).unwrap());
     let enumeration = match r["enum"].as_str().unwrap_or("absent") {
         "has" => Some(vec!["zq1".to_string(), enum_has.unwrap_or("zq3").to_string(), "zq2".to_string()]),
@@ -77,12 +80,15 @@ fn wrapped<T: CheckRestrictions + Clone>(wrap: &str, vals: &[T], r: Option<Rc<Re
 }
 
 fn ints<T: CheckRestrictions + Clone + TryFrom<i128>>(wrap: &str, vals: &[i128], r: Option<Rc<Restrictions>>) -> Result<(), String> {
-    let v: Vec<T> = vals.iter().map(|x| T::try_from(*x).unwrap_or_else(|_| panic!("value {x} does not fit carrier"))).collect();
+    let v: Vec<T> = vals.iter().map(|x| T::try_from(*x).unwrap_or_else(|_| std::panic::panic_any(Skip))).collect();
     wrapped(wrap, &v, r)
 }
 
-const ASCII: [&str; 3] = ["abc", "xyz", "a b"];
-const MULTI: [&str; 3] = ["\u{e4}\u{df}\u{20ac}", "\u{1d11e}\u{e9}\u{4e2d}", "\u{20ac}\u{20ac}\u{1d11e}"];
+/// an anchoring under which a bound does not fit i32 or a value does not fit its carrier is skipped
+struct Skip;
+
+const ASCII: [&str; 5] = ["abc", "xyz", "a b", "ABC", "q-r"];
+const MULTI: [&str; 5] = ["\u{e4}\u{df}\u{20ac}", "\u{1d11e}\u{e9}\u{4e2d}", "\u{20ac}\u{20ac}\u{1d11e}", "\u{e4}b\u{20ac}", "\u{4e2d}\u{4e2d}\u{4e2d}"];
 
 pub fn run(case: &Value) -> Vec<String> {
     let c = &case["c"];
@@ -90,13 +96,18 @@ pub fn run(case: &Value) -> Vec<String> {
     let wrap = c["wrap"].as_str().unwrap_or("bare");
     let vals = c["vals"].as_array().cloned().unwrap_or_default();
     let mut out = vec![];
-    for (k, aname) in ["mid", "hi", "lo"].iter().enumerate() {
-        let res: Result<(), String> = if carrier == "String" {
+    for (k, aname) in ["mid", "hi", "lo", "top", "bottom"].iter().enumerate() {
+        let one = std::panic::catch_unwind(std::panic::AssertUnwindSafe(|| -> Result<(), String> {
+        if carrier == "String" {
             let sv: Vec<String> = vals
                 .iter()
                 .map(|v| {
                     if let Some(n) = set1(&v["num"]) {
-                        concrete("i32", k, n).to_string()
+                        // a numeral has no carrier: LOW/HIGH are the points of the i64 line, offsets are anchored like the i32 bounds
+                        match n {
+                            -100 | 100 => concrete("i64", k, n).to_string(),
+                            o => (anchor("i32", k) + i128::from(o)).to_string(),
+                        }
                     } else {
                         let len = v["len"].as_u64().unwrap_or(0) as usize;
                         let src = if v["mb"].as_bool().unwrap_or(false) { MULTI[k] } else { ASCII[k] };
@@ -118,11 +129,17 @@ pub fn run(case: &Value) -> Vec<String> {
                 "u32" => ints::<u32>(wrap, &iv, r),
                 "i64" => ints::<i64>(wrap, &iv, r),
                 "u64" => ints::<u64>(wrap, &iv, r),
-                "bool" => wrapped(wrap, &[k == 1], r),
-                "f32" => wrapped(wrap, &[[0.0f32, f32::MAX, f32::NAN][k]], r),
-                "f64" => wrapped(wrap, &[[0.0f64, f64::MIN, f64::INFINITY][k]], r),
+                "bool" => wrapped(wrap, &[k % 2 == 1], r),
+                "f32" => wrapped(wrap, &[[0.0f32, f32::MAX, f32::NAN, f32::MIN, -0.0][k]], r),
+                "f64" => wrapped(wrap, &[[0.0f64, f64::MIN, f64::INFINITY, f64::MAX, f64::NAN][k]], r),
                 o => Err(format!("unknown carrier {o}")),
             }
+        }
+        }));
+        let res = match one {
+            Ok(r) => r,
+            Err(p) if p.is::<Skip>() => continue,
+            Err(p) => std::panic::resume_unwind(p),
         };
         out.push(json!({"ev":"check","anchor":aname,"ok":res.is_ok(),"msg":res.err().unwrap_or_default()}).to_string());
     }
